@@ -25,7 +25,7 @@ type Profile struct {
 }
 
 func weighted(w map[string]int) []string {
-	order := []string{"resolve", "reserr", "state", "pick", "done", "adv", "failnew", "cancel", "allready", "bindflow", "decall", "readyrepl", "staledown", "emptypool", "saturate", "refreshcycle", "stalede", "affswap", "fbflow", "bindacross", "growmax", "multibind", "fillwm", "affburst", "flaprefresh", "rrempty", "rrstraddle", "unbindrace", "resurrect", "rrwrap", "rrdead", "fbtwice"}
+	order := []string{"resolve", "reserr", "state", "pick", "done", "adv", "failnew", "cancel", "allready", "bindflow", "decall", "readyrepl", "staledown", "emptypool", "saturate", "refreshcycle", "stalede", "affswap", "fbflow", "bindacross", "growmax", "multibind", "fillwm", "affburst", "flaprefresh", "rrempty", "rrstraddle", "unbindrace", "resurrect", "rrwrap", "rrdead", "fbtwice", "rrresurrect", "rrlongwait"}
 	var out []string
 	for _, k := range order {
 		for i := 0; i < w[k]; i++ {
@@ -288,6 +288,56 @@ func genStep(p *Profile, cfg *Config) *rapid.Generator[[]Op] {
 			ops = append(ops, Op{K: "state", Sel: 5, Key: k2, St: 4}, Op{K: "state", Sel: 4, Key: k2, St: 2},
 				Op{K: "state", Sel: 5, Key: k, St: rapid.SampledFrom([]int{1, 3, 0}).Draw(t, "rdown")})
 			return append(ops, Op{K: "pick", M: 2, Key: k}, Op{K: "pick", M: 2, Key: k}, Op{K: "pick", M: 0})
+		case "rrresurrect":
+			// a channel whose old connection is shut down during its refresh comes back through the replacement (it is in the
+			// rotation again, at the end); later it is not READY: the BIND whose turn falls on it has to wait for it like for any other
+			k2 := rapid.IntRange(0, 3).Draw(t, "rk2")
+			calls := cfg.UdCalls
+			if calls < 1 {
+				calls = 1
+			}
+			if calls > 5 {
+				calls = 5
+			}
+			var ops []Op
+			for i := 0; i < 6; i++ {
+				ops = append(ops, Op{K: "state", Idx: i, St: 2})
+			}
+			ops = append(ops, Op{K: "pick", M: 1, Key: k2}, Op{K: "done", Idx: -1, Out: 0})
+			for j := 0; j < calls; j++ {
+				ops = append(ops, Op{K: "pick", M: 2, Key: k2, DlMs: 1}, Op{K: "adv", Mode: 1, Idx: -1, Eps: 1}, Op{K: "done", Idx: -1, Out: 2})
+			}
+			ops = append(ops, Op{K: "state", Sel: 5, Key: k2, St: 4}, Op{K: "state", Sel: 4, Key: k2, St: 2},
+				Op{K: "pick", M: 2, Key: k2}, Op{K: "done", Idx: -1, Out: 0},
+				Op{K: "state", Sel: 5, Key: k2, St: rapid.SampledFrom([]int{1, 3, 0}).Draw(t, "rdown")})
+			for i := 0; i < 8; i++ {
+				ops = append(ops, Op{K: "pick", M: 1, Key: rapid.IntRange(0, 3).Draw(t, "dk"), DlMs: rapid.SampledFrom([]int{50, 50, 0}).Draw(t, "ddl")})
+				if rapid.IntRange(0, 2).Draw(t, "ddone") != 0 {
+					ops = append(ops, Op{K: "done", Idx: -1, Out: 0})
+				}
+			}
+			if rapid.Bool().Draw(t, "backready") {
+				ops = append(ops, Op{K: "state", Sel: 5, Key: k2, St: 2})
+			}
+			return ops
+		case "rrlongwait":
+			// a BIND without a deadline waits for its channel for a long time (a minute, an hour, a month): it stays waiting
+			var ops []Op
+			for i := 0; i < 6; i++ {
+				ops = append(ops, Op{K: "state", Idx: i, St: 2})
+			}
+			which := rapid.IntRange(0, 5).Draw(t, "lwhich")
+			ops = append(ops, Op{K: "state", Sel: 0, Idx: which, St: rapid.SampledFrom([]int{1, 3, 0}).Draw(t, "ldown")})
+			for i := 0; i < 7; i++ {
+				ops = append(ops, Op{K: "pick", M: 1, Key: rapid.IntRange(0, 3).Draw(t, "lk")})
+			}
+			for _, ns := range rapid.SliceOfN(rapid.SampledFrom([]int64{59e9, 1e9 + 1, 60e9, 60e9 + 1, 3600e9, 30 * 24 * 3600e9}), 1, 3).Draw(t, "lwaits") {
+				ops = append(ops, Op{K: "adv", Ns: ns, Mode: 2}, Op{K: "pick", M: 0})
+			}
+			if rapid.Bool().Draw(t, "lready") {
+				ops = append(ops, Op{K: "state", Sel: 0, Idx: which, St: 2})
+			}
+			return ops
 		case "rrdead":
 			// channels leave the pool (SHUTDOWN), possibly all of them and the pool is re-created; then BINDs: the rotation
 			// covers exactly the channels of the pool, nobody waits for one that is gone
@@ -583,6 +633,17 @@ func GenCase(t *rapid.T, p *Profile) *Case {
 	for _, st := range rapid.SliceOfN(genStep(p, cfg), 1, max).Draw(t, "steps") {
 		ops = append(ops, st...)
 	}
+	// a call that ends with an error may have received bytes before (a stream that got its headers and then hung):
+	// a case-wide bit pattern decides for which failed completions DoneInfo.BytesReceived is set
+	if rcv := rapid.SampledFrom([]uint32{0, 0, 0xFFFFFFFF, 0x55555555, 0x0F0F3333}).Draw(t, "rcvbits"); rcv != 0 {
+		n := 0
+		for i := range ops {
+			if ops[i].K == "done" && ops[i].Out != 0 && ops[i].Out != 25 {
+				ops[i].Rcv = rcv>>(uint(n)%32)&1 == 1
+				n++
+			}
+		}
+	}
 	c.Ops = ops
 	return c
 }
@@ -607,7 +668,7 @@ var Profiles = map[string]*Profile{
 	"fallback": {Name: "fallback", Min: [2]int{2, 4}, Max: [2]int{2, 4}, WM: []int{1, 2, 3}, Fallback: 100, UdMs: []int64{0, 7, 100}, UdCalls: []int{1}, Strict: 50,
 		W: map[string]int{"resolve": 1, "state": 8, "pick": 20, "done": 6, "adv": 1, "allready": 3, "bindflow": 10, "decall": 5, "readyrepl": 6, "staledown": 6, "saturate": 2, "fbflow": 16, "affswap": 2, "bindacross": 1, "resurrect": 4, "fbtwice": 6}, Methods: []int{0, 2, 2, 2, 2, 5, 3, 1}},
 	"rr": {Name: "rr", Min: [2]int{1, 6}, Max: [2]int{1, 6}, WM: []int{1, 2, 100}, Fallback: 20, UdMs: []int64{0, 7, 100}, UdCalls: []int{1}, RR: 100, Strict: 50, Shutdown: true,
-		W: map[string]int{"rrwrap": 3, "rrdead": 4, "emptypool": 1, "resolve": 1, "state": 12, "pick": 30, "done": 8, "adv": 4, "cancel": 4, "allready": 3, "decall": 3, "readyrepl": 4, "staledown": 5, "saturate": 1}, Methods: []int{1, 1, 1, 1, 4, 0, 2}},
+		W: map[string]int{"rrwrap": 3, "rrdead": 4, "rrresurrect": 4, "rrlongwait": 3, "emptypool": 1, "resolve": 1, "state": 12, "pick": 30, "done": 8, "adv": 4, "cancel": 4, "allready": 3, "decall": 3, "readyrepl": 4, "staledown": 5, "saturate": 1}, Methods: []int{1, 1, 1, 1, 4, 0, 2}},
 	"addresses": {Name: "addresses", Min: [2]int{1, 3}, Max: [2]int{1, 4}, WM: []int{1, 2}, UdMs: []int64{7, 100}, UdCalls: []int{1}, Strict: 30, Shutdown: true,
 		W: map[string]int{"resolve": 12, "reserr": 4, "state": 6, "pick": 10, "done": 5, "adv": 1, "allready": 3, "decall": 12, "readyrepl": 8, "saturate": 5, "failnew": 1, "refreshcycle": 4}, Methods: []int{0, 0, 2}},
 	"cfg": {Name: "cfg", Wild: true, WM: []int{1}, Fallback: 30, UdMs: []int64{0, 7}, UdCalls: []int{0, 1}, RR: 20, Strict: 30, CfgOps: true, NoFirst: 30,
